@@ -42,6 +42,19 @@ def configs(tier, seed):
   return cfgs
 
 
+SCHEMA_EDITS = [
+  "[all]\npattern = .*\nretentions = 10s:1d\n",                                     # a valid edit
+  "[s]\npattern = ^s\nretentions = 1s:1h,1m:1d\n[all]\npattern = .*\nretentions = 60s:1d\n",
+  "[all]\npattern = .*\nretentions = 60s:1dd\n",                                    # a typo in a retention
+  "[all]\npattern = .*\nretentions = sixty:1d\n",
+  "[all]\npattern = .*\nretentions = \n",
+  "[all]\npattern = (\nretentions = 60s:1d\n",                                      # a pattern that does not compile
+  "[all]\nretentions = 60s:1d\n",                                                   # no pattern
+  "[all\npattern = .*\n",                                                           # not an INI file any more
+  "",
+]
+
+
 def gen_workload(r, lag, nm=None):
   nm = nm or r.randint(1, 4)
   metrics = ['s%d' % i for i in range(nm)]
@@ -60,6 +73,8 @@ def gen_workload(r, lag, nm=None):
       ops.append(('sleep', r.choice([0.05, 0.6, 1.2, 2.5])))
     if r.random() < 0.12:
       ops.append(('query', r.choice(metrics + ['never.stored'])))     # graphite-web asks the cache for a series
+    if r.random() < 0.06:
+      ops.append(('reload', r.choice(SCHEMA_EDITS)))                  # a live edit of storage-schemas.conf, good or bad
   c = r.random()
   if c < 0.4:
     ops.append(('sleep', r.choice([0.3, 1.5, 2.2])))      # writer goes idle, then a late store right before the stop
@@ -91,6 +106,8 @@ def run_config(cfg, res):
         res.count('schedules_with_damaged_files')
         desc = '%s damaged=%r' % (desc, sorted(damaged))
       res.count('schedules_executed')
+      res.count('schema_file_edits_with_reload_tick', getattr(h, 'reloads', 0))
+      res.count('reload_tasks_ended_by_their_function', getattr(h, 'reload_failures', 0))
       if h.sched_error is not None:
         res.inconc('%s: %s' % (type(h.sched_error).__name__, h.sched_error))
         return h
@@ -148,9 +165,9 @@ def run_config(cfg, res):
     burst = list(metrics)
     r.shuffle(burst)
     ops = ops[:-1] + [('sleep', r.choice([0.3, 1.2, 2.4]))] + [('store', m, 1000001) for m in burst] + [('stop',)]
-    excs = ['IOError', 'OSError', 'ValueError', 'KeyError']
+    excs = ['IOError', 'OSError', 'ValueError', 'KeyError', 'EINTR', 'EAGAIN', 'ENOSPC', 'EIO']
     for k in range(6 if cfg['tier'] == 'quick' else 20):
-      dm = {m: excs[(k + i) % 4] for i, m in enumerate(metrics) if r.random() < (0.9 if k % 2 else 0.5)}
+      dm = {m: excs[(k + i) % len(excs)] for i, m in enumerate(metrics) if r.random() < (0.9 if k % 2 else 0.5)}
       if not dm:
         continue
       hd = one(S.DeviationPolicy({}), 'baseline', dm)
